@@ -221,6 +221,19 @@ def run(ctx: Ctx):
         do_emptyfin(ctx, A, "random_single")
 
 
+def search(ctx: Ctx):
+    rng = ctx.rng
+    for _ in range(ctx.budget(15000, 80000)):
+        if ctx.n_prop_fails:
+            return
+        al = rng.choice(gen.ALPHABETS)
+        A = gen.rand_dfa(rng, 7, al)
+        for tag, B in variants(rng, A) + [("random_pair", gen.rand_dfa(rng, 7, al))]:
+            do_cmp(ctx, A, B, "search_" + tag)
+            do_cmp(ctx, B, A, "search_" + tag)
+        do_emptyfin(ctx, A, "search")
+
+
 def replay(ctx: Ctx, path: str) -> int:
     data = json.load(open(path))
     rp = data.get("replay", data)
